@@ -84,6 +84,9 @@ def run_one(ch, cfg):
     else:
         w, rep, exc, xch, req = c04.run_request(variant, pseed, fault=(k, kind), cseed=cseed)
     dev, link = w.device, w.link
+    # in half of the runs the HID library is the one the repository documents for docker: it does not
+    # notice a re-plug until hidapi_exit() resets it
+    link.stale_enum = ch.draw(2, "hid-library-needs-reset") == 1
     fired = sum(link.stats.faults.values()) > 0 or slow is not None
     is_link_failure = not kind.startswith("timeout")
     # ---- faulted request
